@@ -29,15 +29,15 @@ std::uint32_t GetSeed() {
 }
 
 std::uint64_t GetRandNumber(std::uint64_t max) {
+#if YACLIB_FAULT == 2
+  sRandCount++;
+#endif
 #ifdef YACLIB_VERIF
   if (verif::gHooks.rand != nullptr) {
     if (const long long r = verif::gHooks.rand(max); r >= 0) {
       return static_cast<std::uint64_t>(r);
     }
   }
-#endif
-#if YACLIB_FAULT == 2
-  sRandCount++;
 #endif
   return eng() % max;
 }
